@@ -424,6 +424,10 @@ def coq_coverage(rep, cr, checker_cmd, trusted):
     rep.coverage["theorems"] = [n for n, _ in cr.theorems]
     rep.coverage["print_assumptions"] = {n: cr.assumptions.get(n, "not checked") for n, _ in cr.theorems}
     rep.coverage["coq_wall_s"] = round(cr.wall, 1)
+    print("COQ %s: obligations=%d discharged=%d built=%s hygiene=%d bad_assumptions=%d failed=%s" % (
+        rep.prop, cr.obligations, cr.discharged, cr.built, len(cr.hygiene), len(cr.bad_assumptions), cr.failed_files), flush=True)
+    if not cr.ok:
+        print("COQ %s build log tail: %s" % (rep.prop, cr.build_log[-1200:].replace("\n", " | ")), flush=True)
 
 
 def rng(seed, prop):
